@@ -27,11 +27,18 @@ ASSUMPTIONS = ["SyntaxError vs MPilotError for malformed text: either is allowed
 
 NONFINITE = [("inf-text", faults.WORD("inf"), "inf"), ("nan-text", faults.WORD("nan"), "nan"), ("neg-inf-text", faults.QSTR("-inf"), "-inf"), ("infinity-text", faults.WORD("Infinity"), "Infinity"),
              ("huge-literal", {"t": "float", "v": float("inf"), "text": "1e999"}, float("inf"))]
+NESTED = ("nested-list-with-number", faults.LIST([faults.LIST([faults.INT(1), faults.INT(2)]), faults.INT(3)]), [[1, 2], 3])
+NESTED2 = ("nested-list-of-names", faults.LIST([faults.LIST([faults.WORD("a"), faults.FLOAT(2.5)]), faults.LIST([])]), [["a", 2.5], []])
 EXTRA_WRONG = {
-    "number": NONFINITE,
+    "number": NONFINITE + [NESTED, NESTED2],
+    "boolean": [NESTED, NESTED2],
+    "result": [NESTED, NESTED2],
+    "datatype": [NESTED],
+    "tuple": [NESTED, NESTED2],
     "list:number": [("nonfinite-item", faults.LIST([faults.INT(1), faults.WORD("nan")]), [1, "nan"]), ("inf-item", faults.LIST([faults.WORD("inf")]), ["inf"])],
-    "string": [("list", faults.LIST([faults.INT(1), faults.WORD("a")]), [1, "a"]), ("tuple", faults.TUPLE("a", faults.WORD("b")), {"a": "b"}), ("number", faults.INT(7), 7)],
-    "path": [("list", faults.LIST([faults.WORD("a")]), ["a"]), ("tuple", faults.TUPLE("a", faults.WORD("b")), {"a": "b"}), ("number", faults.INT(7), 7), ("float", faults.FLOAT(1.5), 1.5)],
+    "string": [NESTED, NESTED2, ("list", faults.LIST([faults.INT(1), faults.WORD("a")]), [1, "a"]), ("tuple", faults.TUPLE("a", faults.WORD("b")), {"a": "b"}), ("number", faults.INT(7), 7)],
+    "path": [NESTED, NESTED2, ("through-a-file", faults.QSTR("in.csv/a"), "in.csv/a"), ("file-with-a-slash", faults.QSTR("in.csv/"), "in.csv/"), ("through-a-file-deep", faults.QSTR("in.csv/x/y.csv"), "in.csv/x/y.csv"),
+             ("list", faults.LIST([faults.WORD("a")]), ["a"]), ("tuple", faults.TUPLE("a", faults.WORD("b")), {"a": "b"}), ("number", faults.INT(7), 7), ("float", faults.FLOAT(1.5), 1.5)],
 }
 CSV_FAULTS = ["empty", "header-only", "ragged-short", "ragged-long", "non-numeric", "missing-column", "dup-headers", "quoted-newline", "nul-byte",
               "non-utf8", "huge-field", "nan", "inf", "1e400", "blank-lines", "bom", "only-newlines", "spaces"]
